@@ -14,6 +14,12 @@ CHECKS = {
             'Every operation of ~1M (quick) generated hub reads/writes is compared byte-for-byte over all devices '
             'with a 15-line first-match-wins model; held on the histories observed, nothing more.',
             'Trusted: the sequential model in vf/props/c16.py; CPython.', 'DESIGN.md §2 C16'),
+    'C18': ('runtime monitoring: escape monitor around the real emulate_cycle() over all Thumb-16 words x IT positions, '
+            'every decoder path (bit-provenance tracer), random words and random programs',
+            'Every step of the workload is observed for an escaping host exception; exhaustive for the 2^16 Thumb-16 '
+            'words x 3 IT positions and for at-least-one-word-per-feasible-decoder-path, sampled elsewhere.',
+            'Trusted: the path enumeration of vf/trace_decode.py (partition checked by model counting); valid-state '
+            'generator of vf/scen.py; CPython.', 'DESIGN.md §2 C18'),
 }
 
 NOT_APPLICABLE = {}
